@@ -414,3 +414,36 @@ HARNESSES = [
     H("c15_pairs", c15_pairs, tiers=("thorough",), thorough=dict(max_paths=2000000, time_budget=300), witness_every=200,
       bounds="n<=2, all pairs of 7 mutating operations with symbolic indices and payloads"),
 ]
+
+
+def main(tier, seed, args):
+    """vsym decides; in the thorough tier CrossHair runs the single-index contracts as an independent second engine"""
+    import json
+    from vlib import chdriver, runner
+    if args.replay:
+        return runner.replay_file(args.replay, HARNESSES)
+    extra = None
+    lines = []
+    viol = 0
+    if tier == "thorough" and not args.only:
+        ch = chdriver.run("c15_dictlist.py", 60)
+        for r in ch:
+            if r["condition"].startswith("_twin"):
+                r["twin_ok"] = r["verdict"] == "counterexample"
+                continue
+            if r["verdict"] == "counterexample":
+                a, bad = chdriver.replay("c15_dictlist.py", r["condition"], r["counterexample"])
+                r["replayed_on_real_code"] = bad
+                if bad is True:
+                    path = runner.write_replay(PID, "crosshair", dict(label="crosshair:" + r["condition"], inputs={"args": a},
+                                                                      detail=dict(condition=r["condition"])), {})
+                    lines.append("VIOLATION property=%s replay=%s\n  crosshair %s counterexample %r" % (PID, path, r["condition"], a))
+                    viol += 1
+        extra = dict(crosshair=ch, crosshair_note="second engine; 'no-counterexample-within-budget' is not a failure")
+    code = runner.run_check(PID, tier, HARNESSES, seed=seed, only=args.only.split(",") if args.only else None,
+                            extra_evidence=extra)
+    for l in lines:
+        print(l)
+    if extra:
+        print("C15 crosshair: %s" % json.dumps({r["condition"]: r["verdict"] for r in extra["crosshair"]}))
+    return 1 if viol else code
